@@ -2,7 +2,7 @@
 
 Real Solve() runs with refineSolution in {False, True} on objectives whose unconstrained minimum lies
 outside / on the boundary of the box (linear, quadratics centred outside or on a face, corner cones)
-and on the general families.  Clauses (tolerance 1e-12 * max(|lower|,|upper|,upper-lower) per coordinate):
+and on the general families.  Clauses (containment is tested EXACTLY, no tolerance):
   global-point-in-box    every global-phase evaluation point lies in [lower, upper]
   local-point-in-box     every local-phase (refinement) evaluation point lies in [lower, upper]
   result-in-box          the returned Solution point lies in [lower, upper] (and has N finite coordinates)
@@ -30,10 +30,11 @@ RULE = ("55% boundary objectives (linear, quad with centre outside/on a face, co
 
 
 def outside(pt, lower, upper):
+    """EXACT containment (no tolerance): the images of the evolvent are cell centres at least side*2^-13 inside the box, far more
+    than the rounding of the affine map for every generated box, and the bounded Nelder-Mead clips to the bounds exactly"""
     out = []
     for i, (v, lo, up) in enumerate(zip(pt, lower, upper)):
-        tol = 1e-12 * max(abs(lo), abs(up), up - lo)
-        if not (lo - tol <= v <= up + tol) or not math.isfinite(v):
+        if not (lo <= v <= up) or not math.isfinite(v):
             out.append({"coordinate": i, "value": v, "lower": lo, "upper": up})
     return out
 
@@ -98,7 +99,10 @@ def check_case(case):
 def gen(r):
     n = r.choice((1, 1, 2, 2, 3, 3, 4, 5))
     spec = oc.boundary_spec(r, n) if r.random() < 0.55 else None
-    return oc.gen_case(r, n=n, spec=spec, refine=r.random() < 0.65, lim=r.choice([3, 5, 8, 17, 20, 40, 80, 150, 400]))
+    case = oc.gen_case(r, n=n, spec=spec, refine=r.random() < 0.65, lim=r.choice([3, 5, 8, 17, 20, 40, 80, 150, 400]))
+    if r.random() < 0.2:
+        case["fresh_holder"] = True       # the objective returns a NEW value holder instead of filling in the one it was given
+    return case
 
 
 def run(tier, r):
